@@ -77,7 +77,8 @@ fn dispatch_inner(prop: &str, ctx: Ctx, replay: Option<&str>) -> i32 {
     match prop {
         "C01" => {
             crate::run::start_watchdog(std::time::Duration::from_secs(ctx.tier.pick(180, 1800)), None);
-            let mut rep = c01::run(ctx);
+            // replay aid: VERIF_C01_ONLY_E2E=1 skips the in-memory part
+            let mut rep = if std::env::var("VERIF_C01_ONLY_E2E").is_ok() { Report::new("C01") } else { c01::run(ctx) };
             rep.merge(c01::run_e2e(ctx));
             if ctx.tier == crate::report::Tier::Thorough && std::env::var("VERIF_SKIP_MIRI").is_err() {
                 miri_step(&mut rep, "c01");
